@@ -246,6 +246,79 @@ func updateVsRemoval(competitor string, two bool, releaseAFirst bool, syncA bool
 	}
 }
 
+// overlappingUpdates: the source emits from several goroutines. Event 1 is issued and the delivery
+// to the slow subscriber is parked before its write lock (the fan-out of event 1 holds the updater's
+// event gate); only then a second goroutine issues event 2 (broadcast, or addressed to the slow
+// subscriber), and optionally a third goroutine event 3. The emission order 1 < 2, 1 < 3 is defined
+// by the source; 2 and 3 are unordered. Finally the parked delivery is released.
+func overlappingUpdates(slow string, targeted bool, three bool) func(sc *Script) {
+	return func(sc *Script) {
+		const point = "sub.update.beforeWriteLock"
+		var p *Park
+		var e1 *Event
+		var parked bool
+		waitFanOut := func(n int64) {
+			deadline := time.Now().Add(15 * time.Millisecond)
+			for time.Now().Before(deadline) {
+				if sc.r.Ctl.Hits()["sub.update.afterFilter"] >= n {
+					break
+				}
+				time.Sleep(100 * time.Microsecond)
+			}
+			sc.settle()
+		}
+		sc.step("subscribe", func() {
+			a := sc.newSub("A", SubSpec{Key: 0, Lane: 0, Variant: 0})
+			sc.r.Subscribe(a)
+			b := sc.newSub("B", SubSpec{Key: 0, Lane: 1, Variant: 3})
+			sc.r.Subscribe(b)
+			c := sc.newSub("C", SubSpec{Key: 0, Lane: 2, Variant: 1, Sync: true})
+			sc.r.Subscribe(c)
+			sc.inst = sc.r.WaitInstance(0, 1, sc.wait())
+		})
+		sc.step("event0", func() { sc.r.Emit(sc.inst, 0, nil, false) })
+		sc.step("event1-parks", func() {
+			p = sc.arm(point, sc.matchSub(slow))
+			inst := sc.inst
+			sc.goBG(func() { sc.r.EmitOrdered(inst, 1, nil, false, nil, func(e *Event) { e1 = e }) })
+			parked = sc.arrived(p, point)
+		})
+		sc.step("event2-overlaps", func() {
+			inst := sc.inst
+			var after []*Event
+			if parked && e1 != nil {
+				after = []*Event{e1}
+			}
+			var target *Subscriber
+			if targeted {
+				target = sc.subs[slow]
+			}
+			sc.goBG(func() { sc.r.EmitOrdered(inst, 2, target, false, after, nil) })
+			if parked {
+				waitFanOut(3)
+			}
+		})
+		if three {
+			sc.step("event3-overlaps", func() {
+				inst := sc.inst
+				var after []*Event
+				if parked && e1 != nil {
+					after = []*Event{e1}
+				}
+				sc.goBG(func() { sc.r.EmitOrdered(inst, 3, nil, false, after, nil) })
+				if parked {
+					waitFanOut(4)
+				}
+			})
+		}
+		sc.step("release", func() { p.Release(); sc.settle() })
+		sc.step("event4", func() {
+			inst := sc.inst
+			sc.goBG(func() { sc.r.Emit(inst, 1, nil, false) })
+		})
+	}
+}
+
 // heartbeatVsRemoval: row 5. failing: the writer's Heartbeat returns an error once released.
 func heartbeatVsRemoval(competitor string, failing bool) func(sc *Script) {
 	return func(sc *Script) {
@@ -503,6 +576,13 @@ func ScriptCases(c13 bool) []ScriptCase {
 			add(ScriptCase{Name: "update vs " + comp + " (A,B parked; B first)", Row: row, build: updateVsRemoval(comp, true, false, false)})
 		}
 		add(ScriptCase{Name: "update vs ctx-cancel of sync subscriber", Row: 3, build: updateVsRemoval("cancel", false, true, true)})
+		for _, slow := range []string{"A", "B"} {
+			for _, targeted := range []bool{false, true} {
+				for _, three := range []bool{false, true} {
+					add(ScriptCase{Name: fmt.Sprintf("overlapping updates from several source goroutines (slow=%s targeted=%v three=%v)", slow, targeted, three), Row: 13, build: overlappingUpdates(slow, targeted, three)})
+				}
+			}
+		}
 		for _, comp := range []string{"unsub", "rmclient", "shutdown"} {
 			add(ScriptCase{Name: "heartbeat vs " + comp, Row: 5, build: heartbeatVsRemoval(comp, false)})
 			add(ScriptCase{Name: "failing heartbeat vs " + comp, Row: 5, build: heartbeatVsRemoval(comp, true)})
